@@ -272,8 +272,18 @@ def check(fb, ctx):
                 try:
                     got_ = hirq.eval_pure(ch["body"], env, consts)
                 except hirq.Unknown as e_:
-                    table_ok, unknown = None, str(e_)
-                    break
+                    # second evaluator (patterns, closures, Option combinators, literal tables searched with find / any)
+                    import absint
+                    try:
+                        self_ids = hirq.param_ids(ch, 0)
+                        it_ = absint.Interp(consts=consts, fields={("self", f_): b_ for f_, b_ in zip(flags_, bits)})
+                        v_ = it_.run(ch["body"], {list(p_version)[0]: ver, **{i_: absint.sym("self") for i_ in self_ids}})
+                        got_ = absint.tag(v_) if absint.tag(v_) in ("Ok", "Err") else None
+                        if got_ is None:
+                            raise absint.Unknown("result " + absint.show(v_))
+                    except absint.Unknown as e2_:
+                        table_ok, unknown = None, f"{e_} / {e2_}"
+                        break
                 fl_ = dict(zip(flags_, bits))
                 want_ = "Err" if (fl_["contains_v3_3"] and ver < consts["DATALOG_3_3"]) or ((fl_["contains_scopes"] or fl_["contains_v3_1"] or fl_["contains_check_all"]) and ver < consts["DATALOG_3_1"]) else "Ok"
                 if got_ != want_:
